@@ -231,12 +231,14 @@ def update_connectivity(
 
     dtype = connectivity.encoding.get('dtype', connectivity.dtype)
 
-    if dtype.kind == 'i':
+    if dtype.kind in 'iu':
         # Ensure the fill value fits within the representable integers.
         # The largest representable integer can itself be an element number
         # when the table is full; a negative value never is.
-        if numpy.iinfo(dtype).max < fill_value:
-            fill_value = numpy.iinfo(dtype).min
+        # Unsigned types have only their largest value to spare.
+        info = numpy.iinfo(dtype)
+        if info.max < fill_value:
+            fill_value = info.min if info.min < 0 else info.max
 
     # Entries that refer to an element which is being dropped
     # (such as the neighbour of a face on the new boundary)
